@@ -226,7 +226,7 @@ def main(prop, tier="quick", only=None):
         violations=len(violations),
     )
     os.makedirs(os.path.join(VERIF, "evidence"), exist_ok=True)
-    if not only:
+    if not only and not os.environ.get("PYVC_NO_EVIDENCE"):
         json.dump(evidence, open(os.path.join(VERIF, "evidence", prop + ".json"), "w"), indent=1, default=str)
 
     # ---- report
@@ -237,7 +237,8 @@ def main(prop, tier="quick", only=None):
     if crashed:
         for r in crashed:
             print("CHECKER-CRASH unit=%s\n%s" % (r["job"][1], r["error"]))
-        return 3
+        if not violations:
+            return 3
     if violations:
         for path, reproduced, o in violations:
             print("VIOLATION property=%s replay=%s obligation=%s::%s%s" % (
